@@ -120,14 +120,8 @@ Definition show_viol (v : viol) : string :=
 
 (* ---- known classes ---- *)
 
-Definition KEY_PROBE_ROUTER : string := "probe-reject-for-router-ip-to-unhunted-mac".
-
-(* the recorded class a violated clause at this position falls in, if any *)
-Definition explain (c : cfg) (s : state) (e : event) (v : viol) : option string :=
-  match v with
-  | VConfined => if known_C13_probe_router c s e then Some KEY_PROBE_ROUTER else None
-  | _ => None
-  end.
+(* no recorded defect class is left (K1-K3 were repaired in /repo): every violated clause is reported *)
+Definition explain (c : cfg) (s : state) (e : event) (v : viol) : option string := None.
 
 (* per position: (position, violation, explanation) *)
 Fixpoint explain_all (c : cfg) (pos : nat) (tr : list (state * event * list frame)) (vs : list (list viol))
